@@ -6,6 +6,7 @@ package main
 //	func (e T) <execute>(qf QFrame, ctx *eval.Context) (QFrame, types.ColumnName)     T the eight expression structs
 //	func getFunc(…) (QFrame, interface{}), the constructors called on the spot         inlined
 //	func tempColName(qf QFrame, prefix string) types.ColumnName                       → ETmp (the function with the loop)
+//	func missingCol(expr Expression, qf QFrame) (types.ColumnName, bool)              → EMiss (the recursive function)
 //	func (qf QFrame) Eval(dstCol string, expr Expression, ff ...eval.ConfigFunc) QFrame
 //
 // Method: symbolic execution in continuation-passing style (as xast.go). Frames are immutable values here, so every call
@@ -104,6 +105,8 @@ type evctx struct {
 	recvType    string
 	tmpDecl     *ast.FuncDecl
 	tmpClash    bool
+	missDecl    *ast.FuncDecl
+	missClash   bool
 	budget      int
 }
 
@@ -748,6 +751,28 @@ func (c *evctx) call(t *ast.CallExpr, sc *evscope, p *evpath, depth int, k evk) 
 			pn, _ := fieldTypes(fd.Type.Params)
 			if len(pn) != len(args) {
 				return bad()
+			}
+			if c.isMissSig(fd) {
+				// the function (Expression, QFrame) (types.ColumnName, bool): recursive over the expression tree, translated
+				// separately (EMiss); a call of it is the pair of terms `ET.missCol e f`, `EC.missing e f`
+				if c.missDecl != nil && c.missDecl != fd {
+					c.missClash = true
+					return bad()
+				}
+				c.missDecl = fd
+				var e, f *lt
+				for _, a := range args {
+					switch a.kind {
+					case "sub":
+						e = a.t
+					case "frame":
+						f = a.t
+					}
+				}
+				if e == nil || f == nil || len(args) != 2 {
+					return bad()
+				}
+				return k([]*evv{{kind: "name", t: lh("ET.missCol", e, f)}, econd(lh("EC.missing", e, f))}, p)
 			}
 			if hasLoop(fd) {
 				// the temp-name function: translated separately, a call of it is a term
@@ -1405,6 +1430,284 @@ func (c *evctx) tempFn() *lt {
 	return lh("ETmp.search", lh(strconv.Itoa(loN)), lh(strconv.Itoa(hiN)), ll(result))
 }
 
+
+// ---- the missing-column function → EMiss ----
+
+// a package function with the parameters (Expression, QFrame), in either order, and the results (types.ColumnName, bool)
+func (c *evctx) isMissSig(fd *ast.FuncDecl) bool {
+	if fd.Recv != nil || fd.Type.Results == nil {
+		return false
+	}
+	save := c.imports
+	c.imports = c.fileImports[fd]
+	defer func() { c.imports = save }()
+	empty := &evscope{vars: map[string]*evv{}}
+	kinds := func(fl *ast.FieldList) []string {
+		var out []string
+		for _, f := range fl.List {
+			n := len(f.Names)
+			if n == 0 {
+				n = 1
+			}
+			for i := 0; i < n; i++ {
+				out = append(out, c.typeKind(f.Type, empty))
+			}
+		}
+		return out
+	}
+	ps, rs := kinds(fd.Type.Params), kinds(fd.Type.Results)
+	if len(ps) != 2 || len(rs) != 2 || rs[0] != "name" || rs[1] != "cond" {
+		return false
+	}
+	return (ps[0] == "sub" && ps[1] == "frame") || (ps[0] == "frame" && ps[1] == "sub")
+}
+
+func (c *evctx) missFn() *lt {
+	op := func(s string) *lt { return ls("EMiss.opaque", s) }
+	fd := c.missDecl
+	if fd == nil {
+		return op("?no function (Expression, QFrame) (ColumnName, bool) is called")
+	}
+	if c.missClash {
+		return op("?two functions (Expression, QFrame) (ColumnName, bool)")
+	}
+	c.imports = c.fileImports[fd]
+	empty := &evscope{vars: map[string]*evv{}}
+	self := fd.Name.Name
+	var ex, fr string
+	exPos := -1
+	pos := 0
+	for _, f := range fd.Type.Params.List {
+		if len(f.Names) == 0 {
+			return op("?unnamed parameter")
+		}
+		for _, n := range f.Names {
+			switch c.typeKind(f.Type, empty) {
+			case "sub":
+				ex, exPos = n.Name, pos
+			case "frame":
+				fr = n.Name
+			}
+			pos++
+		}
+	}
+	if ex == "" || fr == "" || ex == fr || len(fd.Body.List) != 4 {
+		return op("?signature or number of statements")
+	}
+	reserved := map[string]bool{self: true, ex: true, fr: true, "true": true, "false": true, "string": true, "nil": true, "_": true}
+	fresh := func(n string) bool {
+		if reserved[n] {
+			return false
+		}
+		if _, imp := c.imports[n]; imp {
+			return false
+		}
+		return true
+	}
+	// 1. var cols []types.ColumnName
+	ds, ok := fd.Body.List[0].(*ast.DeclStmt)
+	if !ok {
+		return op(src(fd.Body.List[0]))
+	}
+	gd, ok := ds.Decl.(*ast.GenDecl)
+	if !ok || gd.Tok != token.VAR || len(gd.Specs) != 1 {
+		return op(src(ds))
+	}
+	vs, ok := gd.Specs[0].(*ast.ValueSpec)
+	if !ok || len(vs.Names) != 1 || len(vs.Values) != 0 || c.typeKind(vs.Type, empty) != "list:name" || !fresh(vs.Names[0].Name) {
+		return op(src(ds))
+	}
+	cols := vs.Names[0].Name
+	reserved[cols] = true
+	// a call `self(<e>.<field>, fr)` (arguments in the order of the parameters): the index of the Expression field
+	selfCall := func(x ast.Expr, e, typ string) (int, bool) {
+		call, ok := unparen(x).(*ast.CallExpr)
+		if !ok || !isName(call.Fun, self) || len(call.Args) != 2 || call.Ellipsis != token.NoPos {
+			return 0, false
+		}
+		if !isName(call.Args[1-exPos], fr) {
+			return 0, false
+		}
+		sel, ok := unparen(call.Args[exPos]).(*ast.SelectorExpr)
+		if !ok || !isName(sel.X, e) {
+			return 0, false
+		}
+		c.recvType = typ
+		v := c.recvField(sel.Sel.Name)
+		c.recvType = ""
+		if v == nil || v.kind != "sub" || v.t.head != "ET.subF" {
+			return 0, false
+		}
+		i, err := strconv.Atoi(v.t.args[0].head)
+		return i, err == nil
+	}
+	isTrue := func(x ast.Expr) bool { return isName(unparen(x), "true") }
+	// 2. switch e := ex.(type) { … }
+	ts, ok := fd.Body.List[1].(*ast.TypeSwitchStmt)
+	if !ok || ts.Init != nil {
+		return op(src(fd.Body.List[1]))
+	}
+	as, ok := ts.Assign.(*ast.AssignStmt)
+	if !ok || as.Tok != token.DEFINE || len(as.Lhs) != 1 || len(as.Rhs) != 1 {
+		return op("?the type switch binds no variable")
+	}
+	eid, ok := as.Lhs[0].(*ast.Ident)
+	ta, ok2 := as.Rhs[0].(*ast.TypeAssertExpr)
+	if !ok || !ok2 || ta.Type != nil || !isName(ta.X, ex) || !fresh(eid.Name) {
+		return op(src(as))
+	}
+	e := eid.Name
+	reserved[e] = true
+	clauses := map[string]*lt{}
+	for _, cl := range ts.Body.List {
+		cc := cl.(*ast.CaseClause)
+		if cc.List == nil {
+			if len(cc.Body) != 0 {
+				return op("?default clause: " + stmtsText(cc.Body))
+			}
+			continue
+		}
+		if len(cc.List) != 1 {
+			return op("?a clause for several types: " + src(cc))
+		}
+		tid, ok := cc.List[0].(*ast.Ident)
+		if !ok || reserved[tid.Name] {
+			return op(src(cc))
+		}
+		role := c.roleOf(tid.Name)
+		if role == "" {
+			return op("?struct type without a role: " + tid.Name)
+		}
+		if _, dup := clauses[role]; dup {
+			return op("?two clauses for the role " + role)
+		}
+		var term *lt
+		if len(cc.Body) == 1 {
+			if a, ok := cc.Body[0].(*ast.AssignStmt); ok {
+				// cols = []types.ColumnName{e.f₁, …}
+				if a.Tok != token.ASSIGN || len(a.Lhs) != 1 || len(a.Rhs) != 1 || !isName(a.Lhs[0], cols) {
+					return op(src(a))
+				}
+				lit, ok := unparen(a.Rhs[0]).(*ast.CompositeLit)
+				if !ok || c.typeKind(lit.Type, empty) != "list:name" {
+					return op(src(a))
+				}
+				var idx []*lt
+				for _, el := range lit.Elts {
+					sel, ok := unparen(el).(*ast.SelectorExpr)
+					if !ok || !isName(sel.X, e) {
+						return op(src(a))
+					}
+					c.recvType = tid.Name
+					v := c.recvField(sel.Sel.Name)
+					c.recvType = ""
+					if v == nil || v.kind != "name" || v.t.head != "ET.srcF" {
+						return op(src(a))
+					}
+					idx = append(idx, v.t.args[0])
+				}
+				term = lh("EMClause.cols", ll(idx))
+			}
+		}
+		if term == nil {
+			// { if c, m := self(e.g, fr); m { return c, true } }* return self(e.h, fr)
+			if len(cc.Body) == 0 {
+				return op("?empty clause: " + src(cc))
+			}
+			var idx []*lt
+			for i, st := range cc.Body {
+				if i == len(cc.Body)-1 {
+					r, ok := st.(*ast.ReturnStmt)
+					if !ok || len(r.Results) != 1 {
+						return op(src(st))
+					}
+					j, ok := selfCall(r.Results[0], e, tid.Name)
+					if !ok {
+						return op(src(st))
+					}
+					idx = append(idx, lh(strconv.Itoa(j)))
+					break
+				}
+				is, ok := st.(*ast.IfStmt)
+				if !ok || is.Else != nil || is.Init == nil || len(is.Body.List) != 1 {
+					return op(src(st))
+				}
+				in, ok := is.Init.(*ast.AssignStmt)
+				if !ok || in.Tok != token.DEFINE || len(in.Lhs) != 2 || len(in.Rhs) != 1 {
+					return op(src(st))
+				}
+				cv, ok1 := in.Lhs[0].(*ast.Ident)
+				mv, ok2 := in.Lhs[1].(*ast.Ident)
+				if !ok1 || !ok2 || cv.Name == mv.Name || !fresh(cv.Name) || !fresh(mv.Name) || !isName(unparen(is.Cond), mv.Name) {
+					return op(src(st))
+				}
+				j, ok := selfCall(in.Rhs[0], e, tid.Name)
+				if !ok {
+					return op(src(st))
+				}
+				r, ok := is.Body.List[0].(*ast.ReturnStmt)
+				if !ok || len(r.Results) != 2 || !isName(unparen(r.Results[0]), cv.Name) || !isTrue(r.Results[1]) {
+					return op(src(st))
+				}
+				idx = append(idx, lh(strconv.Itoa(j)))
+			}
+			term = lh("EMClause.recur", ll(idx))
+		}
+		clauses[role] = term
+	}
+	// 3. for _, col := range cols { if !fr.Contains(string(col)) { return col, true } }
+	rs, ok := fd.Body.List[2].(*ast.RangeStmt)
+	if !ok || rs.Tok != token.DEFINE || (rs.Key != nil && src(rs.Key) != "_") || rs.Value == nil || !isName(rs.X, cols) || len(rs.Body.List) != 1 {
+		return op(src(fd.Body.List[2]))
+	}
+	colID, ok := rs.Value.(*ast.Ident)
+	if !ok || !fresh(colID.Name) {
+		return op(src(rs))
+	}
+	col := colID.Name
+	is, ok := rs.Body.List[0].(*ast.IfStmt)
+	if !ok || is.Init != nil || is.Else != nil || len(is.Body.List) != 1 {
+		return op(src(rs.Body))
+	}
+	not, ok := unparen(is.Cond).(*ast.UnaryExpr)
+	if !ok || not.Op != token.NOT {
+		return op(src(is.Cond))
+	}
+	call, ok := unparen(not.X).(*ast.CallExpr)
+	if !ok || len(call.Args) != 1 {
+		return op(src(is.Cond))
+	}
+	sel, ok := call.Fun.(*ast.SelectorExpr)
+	if !ok || !isName(sel.X, fr) || sel.Sel.Name != "Contains" {
+		return op(src(is.Cond))
+	}
+	tested := unparen(call.Args[0])
+	if conv, ok := tested.(*ast.CallExpr); ok && len(conv.Args) == 1 {
+		if k := c.typeKind(conv.Fun, empty); k == "str" || k == "name" {
+			tested = unparen(conv.Args[0])
+		}
+	}
+	r, ok := is.Body.List[0].(*ast.ReturnStmt)
+	if !isName(tested, col) || !ok || len(r.Results) != 2 || !isName(unparen(r.Results[0]), col) || !isTrue(r.Results[1]) {
+		return op(src(is))
+	}
+	// 4. return "", false
+	last, ok := fd.Body.List[3].(*ast.ReturnStmt)
+	if !ok || len(last.Results) != 2 || !isName(unparen(last.Results[1]), "false") {
+		return op(src(fd.Body.List[3]))
+	}
+	if bl, ok := unparen(last.Results[0]).(*ast.BasicLit); !ok || bl.Kind != token.STRING || bl.Value != `""` {
+		return op(src(last))
+	}
+	var entries []*lt
+	for _, role := range evRoleOrder {
+		if t, ok := clauses[role]; ok {
+			entries = append(entries, lh("(,)", lh("Role."+role), t))
+		}
+	}
+	return lh("EMiss.scan", ll(entries))
+}
+
 var evRoleOrder = []string{"col", "const", "unary", "colConst", "colCol", "ex1", "ex2", "error"}
 
 func evalFnsLean(repo string, rootFiles map[string]*ast.File) string {
@@ -1473,11 +1776,14 @@ func evalFnsLean(repo string, rootFiles map[string]*ast.File) string {
 	}
 	entries = append(entries, "  (FnId.eval, "+evalTerm.lean()+")")
 	tmp := c.tempFn()
+	miss := c.missFn()
 	var b strings.Builder
 	b.WriteString("/- GENERATED on every run by /verif/go/cmd/extract from /repo's source (tie T1). Do not edit. -/\nimport QF.Core.EVExpr\nnamespace QF.Gen\nopen QF.EV\n\n")
 	b.WriteString("/-- the `execute` methods of the expression structs of expression.go (`getFunc` and the constructors called on the spot inlined) and `QFrame.Eval`, executed symbolically to decision trees `QF.EV.EP`, by role: (function, term) -/\n")
 	b.WriteString("def evalFns : List (FnId × EP) := [\n" + strings.Join(entries, ",\n") + "]\n\n")
 	b.WriteString("/-- the function with the search loop that the `execute` methods call for a fresh column name (`tempColName`) -/\n")
-	b.WriteString("def tempColNameAst : ETmp :=\n  " + tmp.lean() + "\n\nend QF.Gen\n")
+	b.WriteString("def tempColNameAst : ETmp :=\n  " + tmp.lean() + "\n\n")
+	b.WriteString("/-- the recursive function `Eval` calls before anything is executed, with the results (column, missing): the first column reference of the expression tree that is not a column of the frame (`missingCol`) -/\n")
+	b.WriteString("def missingColAst : EMiss :=\n  " + miss.lean() + "\n\nend QF.Gen\n")
 	return b.String()
 }
